@@ -7,6 +7,8 @@ GHOST_DEFS
 #include "contracts/hashfn.h"
 #include "contracts/comp.h"
 #include "extracted_zalloc.c"
+#include "extracted_getters.c"
+#include "extracted_hdrlen.c"
 #include "src/lib/comp/comp.c"
 
 /* ---- reader with a chunk list of up to three entries (RD_WF) ------------------------------------ */
@@ -15,7 +17,7 @@ typedef struct {
     int n_nodes;                 /* 1..3 */
     size_t clen[3], len[3]; int valid[3];
     int cur;                     /* -1 = NULL, 0..2 */
-    size_t data_loc0, data_size0, dc_size0, dc_loc0, dst_size, data_offset;
+    size_t data_loc0, data_size0, dc_size0, dc_loc0, dst_size, data_offset, lead_size, header_length; int req;
     int dst_null, use_dict, dict_set, cctx_live, cfull_live, cfull_typed, cchunk_typed, watch_full;
     size_t hu_total0, hu_k, k1; int hu_seen0, hu_final0, hu_inits0;
     g_off_t pos0[G_NFD]; size_t rd0[G_NFD]; int failed0;
@@ -30,7 +32,7 @@ static zckCtx *mk_reader3(IN_rd *in) {
     V_ASSUME(in->comp_type == ZCK_COMP_NONE || in->comp_type == ZCK_COMP_ZSTD);
     zckCtx *zck = calloc(1, sizeof(*zck));
     V_ASSUME(zck != NULL);
-    zck->mode = in->mode; zck->error_state = in->err0; zck->fd = in->fd; zck->data_offset = in->data_offset;
+    zck->mode = in->mode; zck->error_state = in->err0; zck->fd = in->fd; zck->data_offset = in->data_offset; zck->lead_size = in->lead_size; zck->header_length = in->header_length;
     zck->has_uncompressed_source = in->uncomp_src;
     zck->chunk_hash_type.type = in->ctype; zck->chunk_hash_type.digest_size = SPEC_DIGEST_SIZE(in->ctype);
     zck->hash_type.type = in->htype; zck->hash_type.digest_size = SPEC_DIGEST_SIZE(in->htype);
@@ -60,7 +62,7 @@ static zckCtx *mk_reader3(IN_rd *in) {
     if(in->data_size0) { zck->comp.data = malloc(in->data_size0); V_ASSUME(zck->comp.data != NULL); }
     zck->comp.data_size = in->data_size0;
     if(in->dict_set) { zck->comp.dict = malloc(1); V_ASSUME(zck->comp.dict != NULL); zck->comp.dict_size = 1; }
-    zck->comp.end_dchunk = verif_end_dchunk; zck->comp.decompress = verif_decompress;
+    zck->comp.end_dchunk = verif_end_dchunk; zck->comp.decompress = verif_decompress; zck->comp.init = verif_cinit; zck->comp.close = verif_cclose;
     if(in->cctx_live) { zck->check_chunk_hash.ctx = malloc(1); V_ASSUME(zck->check_chunk_hash.ctx != NULL); }
     if(in->cchunk_typed) zck->check_chunk_hash.type = &zck->chunk_hash_type;
     if(in->cfull_live) { zck->check_full_hash.ctx = malloc(1); V_ASSUME(zck->check_full_hash.ctx != NULL); }
@@ -97,6 +99,31 @@ void h_comp_read(void) {
     V_COVER(r > 0 && in.cur == 0 && zck->comp.data_idx == g_nodes[1] && in.comp_type == ZCK_COMP_ZSTD);   /* crossed a chunk boundary (zstd) */
     V_COVER(r > 0 && in.cur == 1 && zck->comp.data_idx == g_nodes[2] && in.comp_type == ZCK_COMP_NONE);   /* crossed a chunk boundary (nocomp) */
     V_COVER(r > 0 && in.watch_full && g_rd_bytes[G_IX(in.fd)] > in.rd0[G_IX(in.fd)]);
+}
+
+void h_zck_get_chunk_data(void) {
+    IN_rd in = nondet_IN_rd();
+    zckCtx *zck = mk_reader3(&in);
+    V_ASSUME(in.dst_size <= 64 && in.req >= 0 && in.req < in.n_nodes && !in.watch_full);
+    char *dst = in.dst_null ? NULL : malloc(in.dst_size);
+    V_ASSUME(in.dst_null || dst != NULL);
+    g_canon_on = 1; g_canon_idx = g_nodes[in.req];
+    ssize_t r = zck_get_chunk_data(g_nodes[in.req], dst, in.dst_size);
+    V_COVER(r > 0 && in.eof0 && in.req == 1);                    /* request after the end of data had been reached */
+    V_COVER(r > 0 && in.cur == 2 && in.data_loc0 > 0 && in.data_size0 == 0 && in.req == 1);   /* request after a partially read chunk */
+    V_COVER(r > 0 && in.req == 0); V_COVER(r == 0 && in.len[in.req] == 0); V_COVER(r < 0 && in.err0 == 0 && in.mode == ZCK_MODE_READ);
+    V_COVER(r > 0 && !in.dict_set && in.len[0] > 0);             /* dictionary loaded on demand */
+}
+
+void h_zck_get_chunk_comp_data(void) {
+    IN_rd in = nondet_IN_rd();
+    zckCtx *zck = mk_reader3(&in);
+    V_ASSUME(in.dst_size <= 64 && in.req >= 0 && in.req < in.n_nodes);
+    char *dst = in.dst_null ? NULL : malloc(in.dst_size);
+    V_ASSUME(in.dst_null || dst != NULL);
+    ssize_t r = zck_get_chunk_comp_data(g_nodes[in.req], dst, in.dst_size);
+    V_COVER(r > 0 && (size_t)r == in.clen[in.req] && in.dst_size > in.clen[in.req]); V_COVER(r > 0 && (size_t)r == in.dst_size && in.dst_size < in.clen[in.req]);
+    V_COVER(r == 0); V_COVER(r < 0 && in.err0 == 0);
 }
 
 #ifdef VERIF_NATIVE
